@@ -673,7 +673,7 @@ theorem simp_nf : ∀ fuel : Nat,
     with — for every query, counter and fuel. -/
 theorem simplify_normal_form (fuel c : Nat) (e e' : Expr) (c' : Nat) (hw : wfq e = true)
     (h : simplify fuel c e = .ok (e', c')) : nf e' = true := by
-  have := (simp_nf fuel).1 [[]] c e nStack_nil hw
+  have := (simp_nf fuel).1 [[]] (max c (nextArg e)) e nStack_nil hw
   unfold simplify at h
   rw [h] at this
   exact this
